@@ -936,8 +936,8 @@ def witness_file(res):
          "import PV.C12.Thm", "namespace PV.C12.Gen", "open PV.C12", ""]
     theorems = []
     first = None
-    for K in res.visit_skip:
-        # an interesting parent holding K directly
+    def holder(K):
+        """an interesting parent node holding a K node that contains an interesting node"""
         best = None
         for P in sc.kinds:
             if sc.parent.get(P) not in INTERESTING_SUMS:
@@ -949,9 +949,14 @@ def witness_file(res):
                         best = (P, i, ft)
         inner = mn.carrying_tree(K, ("root",))
         if best is None or inner is None:
-            _fail(f"no witness tree for skipped kind {K}")
+            return None, None
         P, i, ft = best
-        w = mn.node(P, {i: mn.wrap(ft, inner)})
+        return P, mn.node(P, {i: mn.wrap(ft, inner)})
+
+    for K in res.visit_skip:
+        P, w = holder(K)
+        if w is None:
+            _fail(f"no witness tree for skipped kind {K}")
         name = "visitWitness_" + K
         L.append(f"/-- a {P} node holding a {K} node that contains a stmt/expr/pattern/excepthandler node -/")
         L.append(f"def {name} : Tree :=\n  {w[1:-1]}")
@@ -994,6 +999,17 @@ def witness_file(res):
     L.append("example : Conforms schema exTree := by decide")
     L.append("example : (foldWith foldProg id exTree).1.beq exTree = true := by decide")
     L.append("example : mapCalls (foldWith foldProg id exTree).2 ≠ [] := by decide")
+    # visitor non-vacuity: trees passing through each needed product kind
+    for K in [k for k in sc.kinds if k in res.need_partial and sc.parent.get(k) not in INTERESTING_SUMS
+              and k not in res.visit_skip]:
+        P, w = holder(K)
+        if w is None:
+            continue
+        L.append(f"/-- a {P} node holding a {K} node with a stmt/expr/pattern/excepthandler node inside: all of them are reached -/")
+        L.append(f"def exVisit_{K} : Tree :=\n  {w[1:-1]}")
+        L.append(f"example : Conforms schema exVisit_{K} := by decide")
+        L.append(f"example : (interestingEvents schema (visitWith visitProg schema exVisit_{K})).Perm "
+                 f"(interestingNodes schema exVisit_{K}) ∧ 2 ≤ (interestingNodes schema exVisit_{K}).length := by decide")
     L.append("end PV.C12.Gen")
     return "\n".join(L) + "\n", theorems
 
